@@ -35,6 +35,9 @@ func pick(v Verdicts, prop string) Verdict {
 
 func runProp(prop string) func(Case) ev.Outcome {
 	return func(c Case) ev.Outcome {
+		if c.Crowd != nil {
+			return runCrowd(c.Crowd)
+		}
 		pal.Store(int32(c.Pal))
 		exs, err := execute(c)
 		if err != nil {
